@@ -22,7 +22,7 @@ def min_obs(tier):
 
 
 def make_jobs(tier, seed):
-    n = 320 if tier == 'quick' else 6000
+    n = 320 if tier == 'quick' else 16000
     rng = random.Random(20000 + seed)
     return [{'kind': 'session', 'seed': rng.randrange(1 << 30), 'i': i} for i in range(n)]
 
